@@ -23,6 +23,7 @@ EXPLANATION = (
     "base URL is slash-terminated before every urljoin. Existence of the target pages in the other "
     "project's output is not decided."
     ' R6: dict2obj builds one fresh object per exported entity and registers it; graph nodes take external URLs as recorded. R7: every value passed as the URL of an external entity is a str, and the base handed to modules_from_local is a Path on every path. R1 also covers shape errors of a description that is valid JSON (KeyError/TypeError/AttributeError from the conversion).'
+    " Added after waves 6/7 - memoised loaders do not hand out containers that callers edit; the external_url short-circuit is decided on path conditions (hasattr test or try/except AttributeError)."
 )
 ASSUMPTIONS = ["raise sets of the stdlib calls are the table RAISES below", "exception hierarchy table HIER"]
 
